@@ -221,6 +221,14 @@ class C17(fw.Prop):
             stream = self.msg(rng.choice(B), rng.choice(B), payload, rng.choice([1, 1, 0, 2])) + rng.choice([b"", b"\x00\x01"])
             sched = [rng.choice([1, 2, 3, 7, 8, 9, 100, 1460, 70000]) for _ in range(rng.randint(0, 60))]
             yield mk({"op": "recv", "stream": stream.hex(), "sched": sched, "tag": "random-splits"})
+        # payloads that look like wrapper messages themselves (a forwarded message, a header-like beginning, version/length words)
+        for inner in (b"", b"\xc4\x01\xc1\x00", bytes(rng.getrandbits(8) for _ in range(60))):
+            looks = [self.msg(1, 16, inner), self.msg(16, 1, inner), self.msg(1, 16, inner) + b"\x00", b"\x00" + self.msg(1, 16, inner),
+                     self.msg(1, 16, inner)[:8], self.msg(1, 16, self.msg(1, 16, inner)), b"\x00\x01" * 4 + inner, self.msg(1, 16, inner, 2)]
+            for payload in looks:
+                stream = self.msg(1, 16, payload) + self.msg(1, 16, b"\xaa\xbb")
+                for sched in ([], [8], [8, 8], [rng.randint(1, 20) for _ in range(6)]):
+                    yield mk({"op": "recv", "stream": stream.hex(), "sched": sched, "tag": "message-as-payload"})
         # long messages delivered one byte per read (thousands of reads for one message), and in small irregular pieces
         for L in ([1200, 5000, 20000, 65535] if deep else [1200, 5000]):
             payload = bytes(rng.getrandbits(8) for _ in range(L))
